@@ -23,6 +23,9 @@ from harness.tracecheck import validate_traces
 
 SD = SPEC / "zmq"
 DESIGN_REF = "DESIGN.md section 7 (C33)"
+# short TLC runs are dominated by JVM warm-up: C1-only JIT and two GC threads halve their cost (not used for the big thorough runs)
+FAST = ["-XX:TieredStopAtLevel=1", "-XX:ParallelGCThreads=2"]
+FAST_ENV = {"JDK_JAVA_OPTIONS": " ".join(FAST)}
 INVS = ["TypeOK", "C33_OnlyOwnInOrder", "C33_NothingLost", "C33_MalformedDeliversNothing", "C33_StrictRaisesOnMalformed",
         "C33_NonStrictNeverStops"]
 ALLBAD = {"nosep", "badname", "unkname", "badpayload"}
@@ -252,7 +255,7 @@ def gen_histories(ctx, const, tag):
     """terminal histories of the model (_poll as found and repaired, one TLC run); the run checks every invariant too"""
     out = {}
     cfgp = write_cfg(ctx.out / f"replay_{tag}.cfg", dict(const, Repaireds={False, True}), invariants=INVS, constraints=["Dump"])
-    res = run_tlc("ZmqChannel", cfgp, spec_dir=SD, tag="C33r", timeout=3000)
+    res = run_tlc("ZmqChannel", cfgp, spec_dir=SD, tag="C33r", timeout=3000, java_opts=FAST if ctx.quick else None)
     ctx.add_tlc(res, f"ZmqChannel exhaustive + replay generation {tag}")
     if not res.ok:
         st = res.trace[-1][1] if res.trace else {}
@@ -301,12 +304,12 @@ def run(ctx):
     if ctx.quick:
         runs = [("slim<=5", dict(slim, MaxFrames=5, MaxInFlight=2, Repaireds={False}))]
     else:
-        runs = [("full<=4", dict(full, MaxFrames=4, MaxInFlight=2, Repaireds={False, True})),
+        runs = [("full<=4", dict(full, MaxFrames=4, MaxInFlight=2, Repaireds={False})),
                 ("slim<=6", dict(slim, MaxFrames=6, MaxInFlight=2, Repaireds={False})),
                 ("slim<=5 any interleaving", dict(slim, MaxFrames=5, MaxInFlight=5, Repaireds={False, True}))]
     for label, const in runs:
         cfgp = write_cfg(ctx.out / "exh.cfg", const, invariants=INVS)
-        res = run_tlc("ZmqChannel", cfgp, spec_dir=SD, tag="C33", timeout=3000)
+        res = run_tlc("ZmqChannel", cfgp, spec_dir=SD, tag="C33", timeout=3000, java_opts=FAST if ctx.quick else None)
         ctx.add_tlc(res, f"ZmqChannel exhaustive {label}")
         if not res.ok:
             st = res.trace[-1][1] if res.trace else {}
@@ -363,7 +366,7 @@ def run(ctx):
                     k = next((i for i, (x, y) in enumerate(zip(exp, log)) if x != y), min(len(exp), len(log)))
                     e1 = exp[k] if k < len(exp) else None
                     g1 = log[k] if k < len(log) else None
-                    fk = (e1 or g1)["f"]["kind"]
+                    fk = (e1 or g1)["f"]["kind"] if (e1 or g1) else "order"      # same per-frame deliveries, different order
                     ctx.violation(f"replay:{fk}:{'burst' if burst else 'step'}:{key}",
                                   f"scenario dpfx={sc['dpfx']} strict={sc['strict']} frames={[(f['kind'], f['pfx'], f['name']) for f in frames]}: "
                                   f"at frame {k} expected {e1} but the dispatcher gave {g1} (start() ended {how!r}; delivery order {order})",
@@ -386,7 +389,7 @@ def run(ctx):
         traces.append(to_trace(dpfx, strict, log))
         meta.append((dpfx, strict, frames, how, serializer))
         ctx.case(frames_key(dpfx, strict, frames), any(f["kind"] != "good" for f in frames) or dpfx != 0)
-    v = validate_traces("ZmqTrace", "ZmqTrace.cfg", traces, SD, ctx.out, tag="C33t", timeout=3000)
+    v = validate_traces("ZmqTrace", "ZmqTrace.cfg", traces, SD, ctx.out, tag="C33t", timeout=3000, env=FAST_ENV)
     ctx.add_tlc(v.res, "ZmqTrace")
     ctx.traces(len(traces) - len(v.rejected) - (1 if v.invariant else 0))
     for idx, upto in v.rejected.items():
